@@ -283,6 +283,9 @@ class Runner:
                 for j, b in enumerate(blks):
                     b.p.cornerFastFlux = np.array([100.0 * st["u"] + 10.0 * j + i for i in range(6)])
                     b.p.pointsEdgeFastFluxFr = np.array([0.5 * st["u"] + j + 0.1 * i for i in range(6)])
+                    if st["u"] % 2 == 0:
+                        # two values on every corner (a table of six rows)
+                        b.p.cornerFastFlux = np.array([[100.0 * st["u"] + 10.0 * j + i, 0.25 * j + 0.01 * i] for i in range(6)])
                     # ... and a mechanical displacement vector (bowing)
                     b.p.displacementX = 1e-3 * (1 + (st["u"] + j) % 5)
                     b.p.displacementY = -4e-4 * (1 + j % 3)
@@ -501,9 +504,12 @@ class Runner:
                                 if vs is None or vn is None or len(vs) != 6:
                                     continue
                                 # what sat at direction i of the source sits at direction i + 2 kk of the copy
-                                exp_v = [float(vs[(i - 2 * kk) % 6]) for i in range(6)]
-                                if any(abs(float(x) - y) > 1e-9 * max(1.0, abs(y)) for x, y in zip(vn, exp_v)):
-                                    self.fail("C13.convert", f"step {k}: {pn} of a block of the copy of {s_asm.getName()} at {a.getLocation()} (turned by {120 * kk} degrees) is {[float(x) for x in vn]}, the source's values turned by {120 * kk} degrees are {exp_v}", what="boundary-data")
+                                import numpy as np
+
+                                exp_v = np.array([np.asarray(vs[(i - 2 * kk) % 6], dtype=float) for i in range(6)])
+                                got_v = np.asarray(vn, dtype=float)
+                                if got_v.shape != exp_v.shape or bool(np.any(np.abs(got_v - exp_v) > 1e-9 * np.maximum(1.0, np.abs(exp_v)))):
+                                    self.fail("C13.convert", f"step {k}: {pn} of a block of the copy of {s_asm.getName()} at {a.getLocation()} (turned by {120 * kk} degrees) is {got_v.tolist()}, the source's values turned by {120 * kk} degrees are {exp_v.tolist()}", what="boundary-data")
                                     break
                                 self.probe("copies_boundary_data_checked")
                             dxs, dys = bs.p.get("displacementX"), bs.p.get("displacementY")
